@@ -70,6 +70,7 @@ type bootImage struct {
 	cfg      raft.Configuration
 	cfgIdx   uint64
 	commit   uint64
+	commitCfgIdx uint64 // newest configuration entry above the snapshot and at or below min(stored commit index, last log index)
 	holes    bool
 	voteTerm uint64
 	voteCand string
